@@ -22,7 +22,7 @@ PROPS = {
               "non-trivial = document root has the example's kind and (accepted with depth>=2, or rejected by a difference at depth>=1); "
               "distinct by hash(schema text, document text, option)"),
         assumptions=["reference shape decider is right", "schema printer emits what the model says (cross-checked by C16)"],
-        jobs=[job("shape", "^TestShape$", (4, 16), (6000, 20000), (300, 3000))],
+        jobs=[job("shape", "^TestShape$", (4, 16), (6000, 160000), (300, 3000))],
     ),
     "C06": dict(
         pkg="c06", level="exploration",
@@ -40,9 +40,9 @@ PROPS = {
               "non-trivial = top-level container and at least one of {escape, multi-byte rune, exponent, empty container, number as last byte}; distinct by text"),
         assumptions=["reference parser/printer agree with each other on every generated case (asserted)", "hooks are add-only files injected by -overlay"],
         jobs=[
-            job("events", "^TestDocEvents", (4, 16), (8000, 60000), (300, 3000)),
-            job("three-scanners", "^TestThreeScanners$", (4, 16), (6000, 50000), (300, 3000), pkg="c06h"),
-            job("decorated-schema", "^TestDecoratedSchema$", (2, 8), (6000, 50000), (300, 3000), pkg="c06h"),
+            job("events", "^TestDocEvents", (4, 16), (8000, 200000), (300, 3000)),
+            job("three-scanners", "^TestThreeScanners$", (4, 16), (6000, 200000), (300, 3000), pkg="c06h"),
+            job("decorated-schema", "^TestDecoratedSchema$", (2, 8), (6000, 200000), (300, 3000), pkg="c06h"),
             job("fuzz", "", (0, 0), (0, 0), (0, 0), fuzz="FuzzLexemes", fuzztime=90, tiers=("thorough",)),
         ],
     ),
@@ -127,7 +127,7 @@ PROPS["C02"] = dict(
           "non-trivial = probe within one step of a bound, enum/const near-miss or re-spelling, format-class sample, regex single edit / unanchored prefix, or null under nullable with another rule; "
           "distinct by (schema text, probe text)"),
     assumptions=["reference evaluator is right", "rule sets rejected by Check are discarded and counted (rate reported in labels)"],
-    jobs=[job("scalar", "^TestScalarRules$", (4, 16), (6000, 30000), (600, 3000))],
+    jobs=[job("scalar", "^TestScalarRules$", (4, 16), (6000, 240000), (600, 3000))],
 )
 PROPS["C03"] = dict(
     pkg="c03", level="exploration",
@@ -141,7 +141,7 @@ PROPS["C03"] = dict(
           "+ 0-2 structural mutations, and random JSON. non-trivial = the reference evaluation passed through a position with >=2 alternatives, an allOf-inherited key, an additionalProperties decision, "
           "a key-shortcut match or a type-rule reference; distinct by (spec, document)"),
     assumptions=["reference semantics is right", "graphs rejected by Check are outside the domain (counted under labels)"],
-    jobs=[job("composition", "^TestComposition$", (4, 16), (8000, 25000), (600, 3000))],
+    jobs=[job("composition", "^TestComposition$", (4, 16), (8000, 75000), (600, 3000))],
 )
 PROPS["C04"] = dict(
     pkg="c04", level="exploration",
@@ -154,9 +154,9 @@ PROPS["C04"] = dict(
     rule=("schemas: trees (depth<=3) of objects/arrays whose scalar nodes carry the C02 rule sets and whose arrays may carry minItems/maxItems, objects additionalProperties; inline and multi-line annotations. "
           "non-trivial: (a) Check succeeded and a rule sits at depth>=1; (b) every corruption. distinct by schema text"),
     assumptions=["a corrupted value violates the targeted rule (constructed from the rule parameter with exact arithmetic / regexp)"],
-    jobs=[job("check-vs-example", "^TestCheckVsExample$", (4, 16), (8000, 30000), (600, 3000)),
-          job("type-rule-reference", "^TestTypeRuleReference$", (2, 8), (6000, 30000), (600, 3000)),
-          job("shared-type-object", "^TestSharedTypeObject$", (2, 8), (4000, 30000), (600, 3000))],
+    jobs=[job("check-vs-example", "^TestCheckVsExample$", (4, 16), (8000, 300000), (600, 3000)),
+          job("type-rule-reference", "^TestTypeRuleReference$", (2, 8), (6000, 300000), (600, 3000)),
+          job("shared-type-object", "^TestSharedTypeObject$", (2, 8), (4000, 300000), (600, 3000))],
 )
 PROPS["C08"] = dict(
     pkg="c08", level="exploration", exhaustive_claim=False,
@@ -169,7 +169,7 @@ PROPS["C08"] = dict(
           "empty array, string, integer, float, boolean, null, type shortcut. non-trivial = >=2 rules (>=2 orders executed) or a single rule judged by the table; distinct by (kind, position, rule set)"),
     assumptions=["example values satisfy the value rules except where an atom is deliberately disordered, so a rejection is about applicability/consistency"],
     jobs=[job("exhaustive", "^TestExhaustive", (4, 16), (1, 1), (900, 3000)),
-          job("random", "^TestRandomLargerSets$", (4, 16), (1200, 6000), (900, 3000))],
+          job("random", "^TestRandomLargerSets$", (4, 16), (1200, 50000), (900, 3000))],
 )
 PROPS["C09"] = dict(
     pkg="c09", level="exploration",
@@ -182,7 +182,7 @@ PROPS["C09"] = dict(
           "additionalProperties type, key shortcut (string type or an alias of it, also one listing itself); ~17% of graphs reference an undefined name; roots: single reference, alternative list, object of references; both key-optionality settings. "
           "non-trivial = judged and (the graph has a reference cycle or a missing name) and >=2 types; distinct by the printed spec"),
     assumptions=["a wall-clock budget of 20 s per call is only used to turn a hang into a recorded case; hitting it is reported with the case (never seen on the pinned tree)"],
-    jobs=[job("graphs", "^TestTypeGraphs$", (4, 16), (6000, 25000), (900, 3000))],
+    jobs=[job("graphs", "^TestTypeGraphs$", (4, 16), (6000, 200000), (900, 3000))],
 )
 PROPS["C16"] = dict(
     pkg="c16", level="exploration",
@@ -193,7 +193,7 @@ PROPS["C16"] = dict(
     level_note="trusted: harness/ref/ast.go and the printer; fields the statement does not mention are not compared",
     rule=("schemas from three generator families x printer styles; non-trivial = >=3 nodes and at least one of {>=2 rules on a node, enum/or/allOf, type shortcut, key shortcut, note}; distinct by printed spec"),
     assumptions=["the printer emits what the model says (the same printer feeds C01-C04, whose verdict oracles would expose a disagreement)"],
-    jobs=[job("ast", "^TestAST$", (4, 16), (6000, 25000), (600, 3000))],
+    jobs=[job("ast", "^TestAST$", (4, 16), (6000, 400000), (600, 3000))],
 )
 PROPS["C13"] = dict(
     pkg="c13", level="exploration",
@@ -205,9 +205,9 @@ PROPS["C13"] = dict(
     rule=("schema pairs: model x 1-5 rewrites drawn from 16 kinds (incl. annotation notes, several properties per line and one-line containers, note-only annotations on the line after their value, bare // annotations, inline and multi-line annotations side by side, notes on enum items); documents: the example, instances and structural mutants (6-7 per schema). non-trivial = >=2 rewrite kinds and the schema has an annotation; "
           "document pairs: blanks / property order / per-rune escape spelling (raw, \\uXXXX both cases, short escapes, surrogate pairs); non-trivial = some token changed. distinct by (canonical, respelled)"),
     assumptions=["printer styles are meaning-preserving by the language definition (new-line conventions, comments and annotation forms are listed in the statement)"],
-    jobs=[job("schema", "^TestSchemaRespelling$", (4, 16), (4000, 15000), (600, 3000)),
-          job("document", "^TestDocumentRespelling$", (2, 8), (6000, 25000), (600, 3000)),
-          job("probes", "^TestProbeRespelling$", (2, 8), (4000, 25000), (600, 3000))],
+    jobs=[job("schema", "^TestSchemaRespelling$", (4, 16), (4000, 150000), (600, 3000)),
+          job("document", "^TestDocumentRespelling$", (2, 8), (6000, 250000), (600, 3000)),
+          job("probes", "^TestProbeRespelling$", (2, 8), (4000, 250000), (600, 3000))],
 )
 PROPS["C15"] = dict(
     pkg="c15", level="exploration",
@@ -218,8 +218,8 @@ PROPS["C15"] = dict(
     level_note="trusted: encoding/json.Valid and the reference recogniser; the printer's compact example rendering",
     rule=("schemas on which Check succeeds; non-trivial = uses a user type, or, key shortcut, enum, allOf, recursion cut-off, or a key whose spelling needs escaping; distinct by printed spec"),
     assumptions=["schemas that Check rejects are discarded and counted"],
-    jobs=[job("example", "^TestExample$", (4, 16), (6000, 25000), (600, 3000)),
-          job("shared-type-objects", "^TestExampleSharedTypes$", (2, 8), (3000, 20000), (600, 3000))],
+    jobs=[job("example", "^TestExample$", (4, 16), (6000, 250000), (600, 3000)),
+          job("shared-type-objects", "^TestExampleSharedTypes$", (2, 8), (3000, 200000), (600, 3000))],
 )
 PROPS["C18"] = dict(
     pkg="c18", level="exploration",
@@ -231,8 +231,8 @@ PROPS["C18"] = dict(
     rule=("enum lists of 0-8 items from an 18-item pool incl. pairs differing only in kind, strings containing // , ] and quotes; after the closing bracket nothing / blanks / line break / a comment with or without a line break; Len before Check on a third of the rules; non-trivial = >=2 kinds or a comment; regex patterns from the printable-ASCII grammar with "
           "escaped slashes/backslashes, blanks (space, \\s, [ ]), anchors, tails after the closing slash; non-trivial = has a metacharacter; distinct by text"),
     assumptions=["duplicates are judged on (kind, decoded text)"],
-    jobs=[job("enum", "^TestNamedEnum$", (4, 16), (4000, 30000), (600, 3000)),
-          job("regex", "^TestRegexType$", (4, 16), (3000, 20000), (600, 3000))],
+    jobs=[job("enum", "^TestNamedEnum$", (4, 16), (4000, 240000), (600, 3000)),
+          job("regex", "^TestRegexType$", (4, 16), (3000, 160000), (600, 3000))],
 )
 PROPS["C14"] = dict(
     pkg="c14", level="exploration",
@@ -243,7 +243,7 @@ PROPS["C14"] = dict(
     level_note="trusted: the generators produce accepted S (schemas are checked first); scalars directly followed by a non-extending byte are outside the stated domain (only no-panic is asserted there)",
     rule=("cases (kind, S, separator, tail); non-trivial = tail non-empty (or a cut S); distinct by the tuple"),
     assumptions=["tails never start with / or # (which continue a schema) nor with | after a type shortcut"],
-    jobs=[job("len", "^TestLen", (4, 16), (6000, 50000), (600, 3000))],
+    jobs=[job("len", "^TestLen", (4, 16), (6000, 500000), (600, 3000))],
 )
 PROPS["C17"] = dict(
     pkg="c17", level="exploration", exhaustive_claim=False,
@@ -257,7 +257,7 @@ PROPS["C17"] = dict(
           "validation: rule-free schemas x instances x one planted violation, non-trivial = planted at depth>=1; distinct by the inputs"),
     assumptions=["the planted violation is the only deviation (re-checked with the reference shape decider; documents with duplicate keys are skipped)"],
     jobs=[job("render-exhaustive", "^TestRenderExhaustive$", (1, 1), (1, 1), (900, 3000)),
-          job("generated", "^Test(RenderRandom|ParsePositions|ValidationPositions)$", (4, 16), (6000, 30000), (900, 3000))],
+          job("generated", "^Test(RenderRandom|ParsePositions|ValidationPositions)$", (4, 16), (6000, 400000), (900, 3000))],
 )
 PROPS["C07"] = dict(
     pkg="c07", level="exploration", exhaustive_claim=False,
@@ -270,9 +270,9 @@ PROPS["C07"] = dict(
     rule=("sessions: a generated valid case (type graphs, ruled trees, reference graphs, repository testdata schemas; optional enum rule and regex type) with one role mutated (grammar-aware token edit or 1-3 byte edits "
           "from a hostile set) or truncated at every offset; legal inputs extreme in one dimension (nesting depth <=150, <=300 properties, <=120 alternatives/enum items, one token <=3.5 KB, reference chains <=80, full trees); non-trivial = the schema text has more than one token or an error object was rendered; distinct by the role tuple"),
     assumptions=["API-legal call order (rules before load, types before compile)"],
-    jobs=[job("mutations", "^TestMutatedInputs$", (4, 16), (4000, 20000), (900, 3000)),
-          job("truncations", "^TestTruncations$", (4, 16), (120, 1500), (900, 3000)),
-          job("extremes", "^TestLegalExtremes$", (2, 8), (150, 1500), (900, 3000)),
+    jobs=[job("mutations", "^TestMutatedInputs$", (4, 16), (4000, 60000), (900, 3000)),
+          job("truncations", "^TestTruncations$", (4, 16), (120, 4000), (900, 3000)),
+          job("extremes", "^TestLegalExtremes$", (2, 8), (150, 6000), (900, 3000)),
           job("table", "^TestErrorTable$", (1, 1), (1, 1), (300, 600)),
           job("fuzz", "", (0, 0), (0, 0), (0, 0), fuzz="FuzzSchemaAPI", fuzztime=120, tiers=("thorough",))],
 )
@@ -289,8 +289,8 @@ PROPS["C11"] = dict(
           "(several types, or alternatives, missing required keys, overlapping key shortcuts, allOf from two parents) and a literal-kind family (additionalProperties of each kind x literals in every spelling); non-trivial = a rewritten site iterated a map with >=2 entries (counted by the hook); "
           "distinct by the step list / spec"),
     assumptions=["error messages are not compared (required-key messages list keys in map order by design), only verdict, code, position and file"],
-    jobs=[job("histories", "^TestHistories$", (4, 16), (2000, 6000), (900, 3000)),
-          job("map-orders", "^TestMapOrders$", (4, 16), (800, 6000), (900, 3000), pkg="c11m")],
+    jobs=[job("histories", "^TestHistories$", (4, 16), (2000, 30000), (900, 3000)),
+          job("map-orders", "^TestMapOrders$", (4, 16), (800, 30000), (900, 3000), pkg="c11m")],
 )
 PROPS["C12"] = dict(
     pkg="c12", level="exploration", replay_race=True,
@@ -302,7 +302,7 @@ PROPS["C12"] = dict(
     level_note="trusted: Go race detector (reports only real races); 'compiled exactly once' is observed through equal results, not counted; plans do not share type objects that use allOf (recorded finding, avoided by construction and counted)",
     rule=("plans: G in {2,4,8,16,32} goroutines x 5-15/40 calls; non-trivial = >=2 goroutines with a shared first use or a shared Example call; distinct by plan"),
     assumptions=["a failed plan is replayed 20 times by --replay; a race report is conclusive by itself"],
-    jobs=[job("plans", "^TestConcurrentSharing$", (4, 16), (150, 1200), (1200, 3000), race=True, race_attributed=True)],
+    jobs=[job("plans", "^TestConcurrentSharing$", (4, 16), (150, 3000), (1200, 3000), race=True, race_attributed=True)],
 )
 
 _UNBUILT = "check under construction in this session (see DESIGN.md section 5 for the planned design)"
